@@ -153,3 +153,14 @@ Proof.
   - intros HF. apply IH in HF. destruct HF as [HF1 HF2]. split; [lia|assumption].
   - intros HF; inversion HF; subst. split; [lia|exact E].
 Qed.
+
+(* the search gives up only when every id of the range has a live slot *)
+Lemma find_free_none : forall fuel sl i mx, find_free fuel sl i mx = FNone ->
+  forall k, (i <= k <= mx)%N -> exists p s, cmd_find sl k 0 = Some (p, s).
+Proof.
+  induction fuel as [|fuel IH]; intros sl i mx; cbn [find_free]; [discriminate|].
+  destruct (N.ltb_spec mx i) as [Hlt|Hle]; [intros _ k Hk; lia|].
+  destruct (cmd_find sl i 0) as [[p s]|] eqn:E; [|discriminate].
+  intros HF k Hk. destruct (N.eq_dec k i) as [->|Hn]; [eauto|].
+  apply (IH sl (i + 1)%N mx HF). lia.
+Qed.
